@@ -391,6 +391,12 @@ def cyclic_check(sc):
     wall = time.time() - t
     if wall > 20:
         return f"took {wall:.1f}s", True
+    if sc["expect"] == "many":
+        # the budget is per next(): an iterator whose results are each a few actions away must
+        # keep delivering them however many it has delivered before
+        if outcome != "results" or len(got) != sc["take"]:
+            return f"iterator stopped delivering reachable results after {len(got)} of {sc['take']} ({outcome})", True
+        return None, True
     if sc["expect"] == "loop" and outcome != "loop":
         return f"expected InfiniteLoopDetected, got {outcome} after {len(got)} results", True
     if sc["expect"] == "results" and (outcome != "results" or got[: len(sc["first"])] != sc["first"]):
@@ -409,6 +415,8 @@ def cyclic_oracle(ctx):
     ]
     n = ctx.scale(2, len(cases))
     picks = cases[:n] if ctx.tier == "thorough" else [cases[ctx.rng.randrange(0, 2)], cases[2 + ctx.rng.randrange(0, 4)]]
+    picks = picks + [{"kind": "dict", "path": [["rec"], ["k", "x"]], "take": 350000, "expect": "many", "first": [],
+                      "timeout": 120}]
     bad = 0
     for sc in picks:
         try:
